@@ -742,7 +742,7 @@ def single_conv_program(K, d, position='middle', cin=2, cout=3, L=None, bias=Tru
             'features': ['single-conv', position], 'traits': []}
 
 
-def reuse_program(rng, family='1d', same_size=True):
+def reuse_program(rng, family='1d', same_size=True, with_bn=False):
     """One searchable conv applied to two network inputs (equal channel count, equal or different
     spatial size), joined on the time/height axis, followed by a conv, pooling and a classifier."""
     c = rng.randint(1, 3)
@@ -763,19 +763,25 @@ def reuse_program(rng, family='1d', same_size=True):
                 'bias': rng.random() < 0.7, 'pad': 'same', 'dw': False}
         k2 = {'k': 3, 'pad': 'same'}
     ops = [dict(conv, src='x0', out='a0'),
-           dict(conv, src='x1', out='a1', reuse=True),
-           {'op': 'act', 'kind': 'relu_f', 'src': 'a0', 'out': 'b0'},
-           {'op': 'act', 'kind': 'relu_f', 'src': 'a1', 'out': 'b1'},
+           dict(conv, src='x1', out='a1', reuse=True)]
+    if with_bn:
+        # the conv + BatchNorm *pair* is invoked twice
+        bn = {'op': 'bn', 'name': 'sharedbn', 'c': co, 'bdim': 1 if family == '1d' else 2,
+              'affine': True}
+        ops += [dict(bn, src='a0', out='n0'), dict(bn, src='a1', out='n1', reuse=True)]
+    ops += [{'op': 'act', 'kind': 'relu_f', 'src': 'n0' if with_bn else 'a0', 'out': 'b0'},
+           {'op': 'act', 'kind': 'relu_f', 'src': 'n1' if with_bn else 'a1', 'out': 'b1'},
            {'op': 'cat', 'srcs': ['b0', 'b1'], 'dim': 2, 'out': 'c'},
            dict({'op': 'conv', 'name': 'post', 'src': 'c', 'out': 'd', 'cin': co,
                  'cout': rng.randint(2, 5), 'd': 1, 's': 1, 'bias': True, 'dw': False}, **k2),
            {'op': 'pool', 'kind': 'aavg', 'k': 0, 'name': 'gap', 'src': 'd', 'out': 'e'},
            {'op': 'flat', 'kind': 'meth', 'src': 'e', 'out': 'f'}]
-    ops.append({'op': 'lin', 'name': 'fc', 'src': 'f', 'out': 'o', 'fin': ops[5]['cout'],
+    post = next(o for o in ops if o.get('name') == 'post')
+    ops.append({'op': 'lin', 'name': 'fc', 'src': 'f', 'out': 'o', 'fin': post['cout'],
                 'fout': 3, 'bias': True})
     return {'family': family, 'inputs': inputs, 'ops': ops, 'out': 'o', 'excluded': [],
-            'features': ['reuse', 'reuse-same' if same_size else 'reuse-diffsize', 'tcat'],
-            'traits': []}
+            'features': ['reuse', 'reuse-same' if same_size else 'reuse-diffsize', 'tcat'] +
+            (['reuse-conv-bn-pair', 'bn'] if with_bn else []), 'traits': []}
 
 
 def tensor_shapes(prog):
